@@ -218,6 +218,12 @@ thread_local! {
     pub static RAW_EVENTS: std::cell::RefCell<Vec<HEvent>> = const { std::cell::RefCell::new(Vec::new()) };
 }
 
+/// one adaptive-world run in three is a "high-frequency chain" run (decided by a hash of the seed, so that it does not
+/// line up with the round-robin of world profiles)
+pub fn hf_seed(seed: u64) -> bool {
+    (seed.wrapping_mul(0x9E37_79B9_7F4A_7C15) >> 40) % 3 == 0
+}
+
 pub fn floor_div(a: i32, b: i32) -> i32 {
     a.div_euclid(b)
 }
@@ -401,7 +407,7 @@ impl Gen {
         rt::install_stubs();
         let mut rng = Rng::new(seed ^ 0x5157_5053_494d_0001);
         let knobs = make_knobs(profile, &mut rng, thorough);
-        HF_RUN.with(|c| c.set(profile == Profile::Adaptive && seed % 3 == 0));
+        HF_RUN.with(|c| c.set(profile == Profile::Adaptive && hf_seed(seed)));
         V2_ONLY.with(|c| c.set(knobs.v2_only));
         ix::HOOK_MINTS.with(|h| h.borrow_mut().clear());
         let rent = if knobs.non_default_rent {
@@ -871,7 +877,7 @@ impl Gen {
         if self.knobs.profile != Profile::Adaptive || self.knobs.clock_jump_pct == 0 {
             return;
         }
-        let hf_run = self.seed % 3 == 0;
+        let hf_run = hf_seed(self.seed);
         if !self.rng.chance(1, 5) && !(hf_run && self.rng.chance(4, 5)) {
             return;
         }
@@ -884,7 +890,7 @@ impl Gen {
         // high-frequency chain (one run in three of this kind): every swap lands filter - 1 seconds after the later of the
         // last reference update and the last major swap, so that a chain of major swaps keeps the pool inside the filter
         // window while its reference grows older than an hour
-        if self.seed % 3 == 0 && o.c.filter_period > 1 {
+        if hf_seed(self.seed) && o.c.filter_period > 1 {
             // (half a filter period after the base, once per base: the following swaps land naturally, seconds later and still
             // inside the window, until one of them is a major swap and becomes the new base)
             let base = o.v.last_reference_update_timestamp.max(o.v.last_major_swap_timestamp) as i64;
